@@ -170,6 +170,36 @@ pub fn gen_field_stop_project(rng: &mut Rng, nodes: &[N]) -> Option<(Project, us
   None
 }
 
+/// `range` of a node that spans several lines and has multi-byte characters on its last line (before its end):
+/// line / CHARACTER column of both ends computed here from the bytes.  The rule must match exactly the nodes
+/// with that range.  Returns the project and the node's index.
+pub fn gen_wide_range_project(rng: &mut Rng, src: &str, nodes: &[N]) -> Option<(Project, usize)> {
+  let pos = |off: usize| -> (usize, usize) {
+    let pre = &src.as_bytes()[..off];
+    let line = pre.iter().filter(|b| **b == b'\n').count();
+    let ls = pre.iter().rposition(|b| *b == b'\n').map(|i| i + 1).unwrap_or(0);
+    (line, std::str::from_utf8(&pre[ls..]).map(|s| s.chars().count()).unwrap_or(0))
+  };
+  let cands: Vec<usize> = (0..nodes.len()).filter(|i| {
+    let n = &nodes[*i];
+    let t = n.text();
+    match t.rfind('\n') {
+      Some(k) => !t[k..].is_ascii(),
+      None => false,
+    }
+  }).collect();
+  if cands.is_empty() {
+    return None;
+  }
+  let ni = *rng.pick(&cands);
+  let n = &nodes[ni];
+  let (sl, sc) = pos(n.range().start);
+  let (el, ec) = pos(n.range().end);
+  let rule = RObj { keys: vec![RKey::Range(sl, sc, el, ec)] };
+  // a rule needs a kind set to be loadable on its own: the stream loads rule cores, which do not
+  Some((Project { rule, utils: vec![], constraints: vec![] }, ni))
+}
+
 pub fn gen_project(rng: &mut Rng, ing: &Ingredients, depth: usize, allow_vars: bool, with_constraints: bool) -> Project {
   let mut counter = 0usize;
   let mut utils: Vec<(String, RObj)> = vec![];
@@ -250,7 +280,12 @@ pub fn run_stream(o: &Opts, which: &str) {
         let retry = if shared && rng.chance(1, 4) { gen_retry_project(&mut rng, &dc.nodes) } else { None };
         let mut witness: Option<((usize, usize, u16), (usize, usize, u16), String)> = None;
         let field_stop = if retry.is_none() && rng.chance(1, 6) { gen_field_stop_project(&mut rng, &dc.nodes) } else { None };
-        let p = if let Some((p, ni)) = field_stop {
+        let wide_range = if retry.is_none() && field_stop.is_none() && rng.chance(1, 8) { gen_wide_range_project(&mut rng, src, &dc.nodes) } else { None };
+        let p = if let Some((p, ni)) = wide_range {
+          out.count("gen:range-of-multi-line-node-with-wide-last-line");
+          witness_idx = Some(ni);
+          p
+        } else if let Some((p, ni)) = field_stop {
           out.count("gen:field-child-is-the-stop");
           witness_idx = Some(ni);
           p
